@@ -72,6 +72,8 @@ pub struct Layout {
     pub bound_after_ranges: bool,
     /// 0 nothing, 1 a comment line, 2 a blank line between an OBJSENSE header and its value line
     pub objsense_gap: u8,
+    /// which texts the comment lines carry
+    pub comment_style: u8,
 }
 
 #[derive(Clone, Debug, PartialEq)]
@@ -334,7 +336,11 @@ pub fn gen_layout(t: &mut Tape, lp: &Lp, ctx: &mut Ctx) -> Layout {
         gzip: t.p(100),
         bound_after_ranges: true,
         objsense_gap: t.choice(3) as u8,
+        comment_style: t.choice(4) as u8,
     };
+    if l.comments && l.comment_style != 0 {
+        ctx.label("comments-that-look-like-content");
+    }
     if l.objsense == 2 && l.objsense_gap != 0 {
         ctx.label("objsense-gap");
     }
@@ -371,7 +377,11 @@ pub fn write_mps(lp: &Lp, l: &Layout, inject: &Inject) -> String {
     };
     let deco = |out: &mut String, i: usize| {
         if l.comments && i % 3 == 0 {
-            out.push_str("* a comment line\n");
+            // a comment is a comment whatever it says: section keywords, lp_solve's <meta ...> lines, the opposite sense
+            const TEXTS: [&str; 8] = ["* a comment line", "*<meta creator='lp_solve v5.5'>", "*<meta rows=3>", "*<meta origsense='MAX'>", "*<meta origsense='MIN'>", "* OBJSENSE MAX", "*RHS", "* ENDATA"];
+            let k = if l.comment_style == 0 { 0 } else { (i / 3 + l.comment_style as usize * 3) % TEXTS.len() };
+            out.push_str(TEXTS[k]);
+            out.push('\n');
         }
         if l.blanks && i % 4 == 1 {
             out.push('\n');
